@@ -219,6 +219,9 @@ CONFIGS = {
       'max_actions': 3, 'max_preempt': 2, 'preempt_depth': 3}, 6),
     ({'res': 1, 'dts': [-0.0125, 0.0025, 0.0125], 'advs': [0.005],
       'max_actions': 3, 'max_preempt': 1, 'preempt_depth': 2}, 5),
+    # several overdue deadlines (different past ticks) scheduled in the same instant, after earlier actions have run
+    ({'res': 0.01, 'dts': [-0.0325, -0.0225, -0.0125, 0.0125], 'advs': [0.02],
+      'max_actions': 4, 'max_preempt': 2, 'preempt_depth': 1}, 6),
   ],
   'thorough': [
     ({'res': 0.01, 'dts': [-0.0125, 0.0025, 0.0125, 0.0275], 'advs': [0.005, 0.02],
